@@ -35,7 +35,7 @@ def sess_retyped(seed, target=0):
         alltypes = sorted({uncps(c['t']) for e in lines if e['ev'] == 'header' for c in e['cells']})
         evs.append(session.record_call(doc, {'op': 'dumps', 'args': session.dumps_args(types=alltypes), 'exact': True}))
         evs.append(session.record_call(doc, {'op': 'mcount', 'args': {}}))
-        evs.append(session.record_call(doc, {'op': 'listing', 'args': {'incall': False, 'inc': ['BARLINES']}}))
+
     return dp.finish_session(lines, evs, text, seed, dp.features(lines) | {'as ' + t})
 
 
